@@ -354,29 +354,80 @@ fn count_end_instrs(h: &gimli::LineProgramHeader<R>) -> usize {
     n
 }
 
+/// failure classes that are recorded findings (known_findings.d/C04.json); an unlisted class
+/// found on the same input wins, so that a recorded finding cannot mask a new one
+const KNOWN_CLASSES: &[&str] = &["mono-suppressed-end", "seq-bounds-suppressed-end", "seq-start-empty"];
+
+fn pick(findings: Vec<String>) -> Option<String> {
+    let known = |s: &String| KNOWN_CLASSES.contains(&s.split(' ').next().unwrap_or(""));
+    findings.iter().find(|s| !known(s)).cloned().or_else(|| findings.into_iter().next())
+}
+
+/// how to re-run a prefix / slice of the program under the same header (P-based ops only)
+struct Rebuild<'a> {
+    p: &'a P,
+    prog: &'a [u8],
+}
+
+impl Rebuild<'_> {
+    fn rows_of(&self, prog: &[u8]) -> usize {
+        let sec = build_section(self.p, prog);
+        let dl = DebugLine::new(&sec, self.p.endian());
+        let Ok(program) = dl.program(DebugLineOffset(0), self.p.asz as u8, None, None) else { return 0 };
+        let mut rows = program.rows();
+        let evs = collect_rows!(rows, prog.len() + 2);
+        evs.iter().filter(|e| matches!(e, Ev::Row(_))).count()
+    }
+    /// end offset of the instruction that produced emitted row `k` (0-based)
+    fn end_offset_of_row(&self, k: usize) -> Option<usize> {
+        (0..=self.prog.len()).find(|l| self.rows_of(&self.prog[..*l]) >= k + 1)
+    }
+    /// is there a DW_LNE_end_sequence *instruction* strictly between the instructions that
+    /// produced emitted rows `k-1` and `k`? (then its row was suppressed)
+    fn end_instr_between(&self, k: usize) -> bool {
+        let (Some(a), Some(b)) = (self.end_offset_of_row(k - 1), self.end_offset_of_row(k)) else { return false };
+        let sec = build_section(self.p, &self.prog[a..b]);
+        let dl = DebugLine::new(&sec, self.p.endian());
+        let Ok(program) = dl.program(DebugLineOffset(0), self.p.asz as u8, None, None) else { return false };
+        let h = program.header();
+        let mut it = h.instructions();
+        let mut instrs = Vec::new();
+        while let Ok(Some(i)) = it.next_instruction(h) {
+            instrs.push(matches!(i, LineInstruction::EndSequence));
+            if instrs.len() > 1 << 16 {
+                break;
+            }
+        }
+        // the last instruction is the one that produced row k
+        instrs.pop();
+        instrs.iter().any(|e| *e)
+    }
+}
+
 /// "For any input whatsoever, row addresses never decrease within a sequence and never exceed
 /// the address size." A sequence ends with a row that has end_sequence set.
-fn oracle_mono(evs: &[Ev], asz: u64, end_instrs: usize) -> Option<String> {
+fn oracle_mono(evs: &[Ev], asz: u64, end_instrs: usize, rb: Option<&Rebuild>, out: &mut Vec<String>) {
     let mask: u64 = if asz >= 8 { u64::MAX } else { (1u64 << (8 * asz)) - 1 };
-    let mut prev: Option<&RowV> = None;
-    let end_rows = evs.iter().filter(|e| matches!(e, Ev::Row(r) if r.end())).count();
-    for e in evs {
-        if let Ev::Row(r) = e {
-            if r.address > mask {
-                return Some(format!("addr-exceeds-size {} > {}", r.address, mask));
-            }
-            if let Some(p) = prev {
-                if !p.end() && r.address < p.address {
-                    // an end_sequence instruction that produced no row (its row was suppressed as a
-                    // tombstone) is the one explanation the implementation has for a silent reset
-                    let class = if end_instrs > end_rows { "mono-suppressed-end" } else { "mono" };
-                    return Some(format!("{class} {} after {}", r.address, p.address));
-                }
-            }
-            prev = Some(r);
+    let rows: Vec<&RowV> = evs.iter().filter_map(|e| if let Ev::Row(r) = e { Some(r) } else { None }).collect();
+    let end_rows = rows.iter().filter(|r| r.end()).count();
+    let mut reported = 0;
+    for (k, r) in rows.iter().enumerate() {
+        if r.address > mask {
+            out.push(format!("addr-exceeds-size {} > {}", r.address, mask));
+            return;
+        }
+        if k > 0 && !rows[k - 1].end() && r.address < rows[k - 1].address && reported < 4 {
+            reported += 1;
+            // an end_sequence instruction that produced no row (its row was suppressed as a
+            // tombstone) is the one explanation the implementation has for a silent reset
+            let suppressed = match rb {
+                Some(rb) => rb.end_instr_between(k),
+                None => end_instrs > end_rows,
+            };
+            let class = if suppressed { "mono-suppressed-end" } else { "mono" };
+            out.push(format!("{class} {} after {}", r.address, rows[k - 1].address));
         }
     }
-    None
 }
 
 struct SeqV {
@@ -388,44 +439,49 @@ struct SeqV {
 /// "Splitting a program into sequences and resuming any sequence yields exactly the rows a
 /// straight run yields for it, and each sequence's reported address bounds are its first and
 /// end addresses."
-fn oracle_seqs(straight: &[Ev], seqs: &[SeqV], end_instrs: usize) -> Option<String> {
+fn oracle_seqs(straight: &[Ev], seqs: &[SeqV], mono_known: bool, out: &mut Vec<String>) {
     // sequences() succeeded => the straight run had no error either
     if straight.iter().any(|e| !matches!(e, Ev::Row(_))) {
-        return Some("seq-ok-but-rows-err".into());
+        out.push("seq-ok-but-rows-err".into());
+        return;
     }
     let rows: Vec<&RowV> = straight.iter().filter_map(|e| if let Ev::Row(r) = e { Some(r) } else { None }).collect();
     let last_end = rows.iter().rposition(|r| r.end()).map(|i| i + 1).unwrap_or(0);
     let expect = &rows[..last_end];
     let mut got: Vec<&RowV> = Vec::new();
-    let end_rows = rows.iter().filter(|r| r.end()).count();
     for s in seqs {
         let rs: Vec<&RowV> = s.evs.iter().filter_map(|e| if let Ev::Row(r) = e { Some(r) } else { None }).collect();
         if rs.len() != s.evs.len() {
-            return Some("seq-resume-err".into());
+            out.push("seq-resume-err".into());
+            return;
         }
-        let Some(last) = rs.last() else { return Some("seq-empty".into()) };
+        let Some(last) = rs.last() else {
+            out.push("seq-empty".into());
+            return;
+        };
         if !last.end() || rs[..rs.len() - 1].iter().any(|r| r.end()) {
-            return Some("seq-not-one-sequence".into());
+            out.push("seq-not-one-sequence".into());
+            return;
         }
         if s.end != last.address {
-            return Some(format!("seq-end {} != {}", s.end, last.address));
+            out.push(format!("seq-end {} != {}", s.end, last.address));
         }
         if s.start != rs[0].address {
             if rs.len() == 1 {
-                return Some(format!("seq-start-empty reported {} for a sequence whose only row is the end row at {}", s.start, rs[0].address));
+                out.push(format!("seq-start-empty reported {} for a sequence whose only row is the end row at {}", s.start, rs[0].address));
+            } else {
+                out.push(format!("seq-start {} != {}", s.start, rs[0].address));
             }
-            return Some(format!("seq-start {} != {}", s.start, rs[0].address));
-        }
-        if s.start > s.end {
-            let class = if end_instrs > end_rows { "seq-bounds-suppressed-end" } else { "seq-bounds" };
-            return Some(format!("{class} start {} > end {}", s.start, s.end));
+        } else if s.start > s.end {
+            // only possible when the rows themselves go backwards (reported by the `mono` oracle)
+            let class = if mono_known { "seq-bounds-suppressed-end" } else { "seq-bounds" };
+            out.push(format!("{class} start {} > end {}", s.start, s.end));
         }
         got.extend(rs);
     }
     if got.len() != expect.len() || got.iter().zip(expect.iter()).any(|(a, b)| a != b) {
-        return Some("seq-rows-differ".into());
+        out.push("seq-rows-differ".into());
     }
-    None
 }
 
 fn with_oracle(s: String, o: Option<String>) -> String {
@@ -435,17 +491,19 @@ fn with_oracle(s: String, o: Option<String>) -> String {
     }
 }
 
-/// rows + sequences of one parsed program; returns (events, seq text, oracle)
-fn run_all(prog: gimli::IncompleteLineProgram<R>, cap: usize) -> (Vec<Ev>, String, Option<String>) {
+/// rows + sequences of one parsed program; returns (events, seq text, oracle findings)
+fn run_all(prog: gimli::IncompleteLineProgram<R>, cap: usize, rb: Option<&Rebuild>) -> (Vec<Ev>, String, Vec<String>) {
     let asz = prog.header().address_size() as u64;
     let end_instrs = count_end_instrs(prog.header());
     let mut rows = prog.clone().rows();
     let evs = collect_rows!(rows, cap);
-    let mut o = oracle_mono(&evs, asz, end_instrs);
+    let mut o = Vec::new();
+    oracle_mono(&evs, asz, end_instrs, rb, &mut o);
+    let mono_known = !o.is_empty() && o.iter().all(|s| s.starts_with("mono-suppressed-end"));
     let seq_txt = match prog.sequences() {
         Err(e) => {
-            if !evs.iter().any(|e| matches!(e, Ev::Err(_))) && o.is_none() {
-                o = Some("seq-err-but-rows-ok".into());
+            if !evs.iter().any(|e| matches!(e, Ev::Err(_))) {
+                o.push("seq-err-but-rows-ok".into());
             }
             format!("err {}", rerr(&e))
         }
@@ -456,9 +514,7 @@ fn run_all(prog: gimli::IncompleteLineProgram<R>, cap: usize) -> (Vec<Ev>, Strin
                 let evs = collect_rows!(r, cap);
                 sv.push(SeqV { start: s.start, end: s.end, evs });
             }
-            if o.is_none() {
-                o = oracle_seqs(&evs, &sv, end_instrs);
-            }
+            oracle_seqs(&evs, &sv, mono_known, &mut o);
             let mut t = vec![format!("ok {}", sv.len())];
             for s in &sv {
                 t.push(format!("S:{},{} {}", s.start, s.end, evs_s(&s.evs)));
@@ -1055,8 +1111,9 @@ pub fn handle(op: &str, a: &[&str]) -> Option<String> {
             if program.header().raw_program_buf().slice() != &prog[..] {
                 o = Some("hdr-program-buf".to_string());
             }
-            let (evs, seq_txt, o2) = run_all(program, prog.len() + 2);
-            let o = o.or(o2);
+            let rb = Rebuild { p: &p, prog: &prog };
+            let (evs, seq_txt, o2) = run_all(program, prog.len() + 2, Some(&rb));
+            let o = o.or(pick(o2));
             if op == "line-rows" {
                 Some(with_oracle(format!("ok {}", evs_s(&evs)), o))
             } else {
@@ -1079,16 +1136,17 @@ pub fn handle(op: &str, a: &[&str]) -> Option<String> {
                 Ok(x) => x,
                 Err(e) => return Some(format!("err {}", rerr(&e))),
             };
-            let (evs, _, mut o) = run_all(program, prog.len() + 2);
-            if o.is_none() && is.iter().all(|i| encodable(&p, i)) {
+            let rb = Rebuild { p: &p, prog: &prog };
+            let (evs, _, mut o) = run_all(program, prog.len() + 2, Some(&rb));
+            if is.iter().all(|i| encodable(&p, i)) {
                 if let Some(want) = naive_machine(&p, &is) {
                     let got: Vec<Ev> = want.into_iter().map(Ev::Row).collect();
                     if got != evs {
-                        o = Some(format!("spec-rows want {}", evs_s(&got)));
+                        o.insert(0, format!("spec-rows want {}", evs_s(&got)));
                     }
                 }
             }
-            Some(with_oracle(format!("ok {} {}", hex(&prog), evs_s(&evs)), o))
+            Some(with_oracle(format!("ok {} {}", hex(&prog), evs_s(&evs)), pick(o)))
         }
         ("line-hdr", [e, asz, off, cd, cn, sec]) => {
             let endian = match *e {
@@ -1160,8 +1218,8 @@ pub fn handle(op: &str, a: &[&str]) -> Option<String> {
             let mut rows = program.clone().rows();
             let _ = collect_rows!(rows, cap);
             let files = list_s(rows.header().file_names(), file_s);
-            let (evs, seq_txt, o) = run_all(program, cap);
-            Some(with_oracle(format!("ok {ver} {hasz} {} / {seq_txt} / {files}", evs_s(&evs)), o))
+            let (evs, seq_txt, o) = run_all(program, cap, None);
+            Some(with_oracle(format!("ok {ver} {hasz} {} / {seq_txt} / {files}", evs_s(&evs)), pick(o)))
         }
         _ => None,
     }
